@@ -54,7 +54,7 @@ func WriteResponse(w io.Writer, o Object) error {
 
 // ReadResponse reads a response from the stream into r.
 func ReadResponse(r io.Reader, o Object) error {
-	return withDecoder(r, (*RPCError)(nil).maxLen()+o.maxLen(), func(d *types.Decoder) {
+	return withDecoder(r, 1+(*RPCError)(nil).maxLen()+o.maxLen(), func(d *types.Decoder) {
 		if d.ReadBool() {
 			r := new(RPCError)
 			r.decodeFrom(d)
